@@ -179,6 +179,48 @@ def _range_len_to_enumerate(st):
     return new
 
 
+def _product_to_nested(st):
+    """for a, b in itertools.product(A, B): BODY  ->  for a in A: for b in B: BODY
+    (plain iterables that the body does not rebind)"""
+    if not (isinstance(st, ast.For) and not st.orelse and isinstance(st.iter, ast.Call)
+            and _unparse(st.iter.func) in ("itertools.product", "product")
+            and not st.iter.keywords and isinstance(st.target, (ast.Tuple, ast.List))
+            and len(st.target.elts) == len(st.iter.args) >= 2
+            and all(isinstance(t, ast.Name) for t in st.target.elts)):
+        return None
+
+    def plain(e):
+        if isinstance(e, ast.Name):
+            return True
+        if isinstance(e, (ast.Attribute, ast.Subscript)):
+            return plain(e.value) and (not isinstance(e, ast.Subscript) or isinstance(
+                e.slice, (ast.Constant, ast.Name)))
+        if isinstance(e, ast.Call) and not e.keywords:
+            if isinstance(e.func, ast.Attribute) and e.func.attr in ("keys", "values", "items",
+                                                                     "copy") and not e.args:
+                return plain(e.func.value)
+            if isinstance(e.func, ast.Name) and e.func.id in ("list", "tuple", "sorted",
+                                                              "range", "len") \
+                    and all(plain(a) for a in e.args):
+                return True
+        return isinstance(e, ast.Constant)
+    if not all(plain(a) for a in st.iter.args):
+        return None
+    stored = set()
+    for b in st.body:
+        stored |= {n.id for n in ast.walk(b) if isinstance(n, ast.Name)
+                   and isinstance(n.ctx, (ast.Store, ast.Del))}
+    used = {n.id for a in st.iter.args for n in ast.walk(a) if isinstance(n, ast.Name)}
+    if stored & used or _jumps_out(st.body):
+        return None
+    body = st.body
+    for t, a in reversed(list(zip(st.target.elts, st.iter.args))):
+        loop = ast.For(target=t, iter=a, body=body, orelse=[])
+        ast.copy_location(loop, st)
+        body = [loop]
+    return body[0]
+
+
 def _unpack_loop_var(st):
     """for t in X: a, b = t; ...   ->   for a, b in X: ...  (other reads of t become (a, b))"""
     if not (isinstance(st, ast.For) and isinstance(st.target, ast.Name) and st.body):
@@ -304,6 +346,9 @@ def canon_block(block, in_loop=False, is_loop_body=False):
     block = expanded
     for st in block:
         r = _range_len_to_enumerate(st)
+        if r is not None:
+            st = r
+        r = _product_to_nested(st)
         if r is not None:
             st = r
         r = _unpack_loop_var(st)
@@ -690,6 +735,15 @@ def _replace_node(root, old, new):
     return R().visit(root)
 
 
+def _bool_dispatch(e):
+    if isinstance(e, ast.Dict) and len(e.keys) == 2 and all(
+            isinstance(k, ast.Constant) and isinstance(k.value, bool) for k in e.keys) \
+            and {k.value for k in e.keys} == {True, False} \
+            and all(isinstance(v, ast.Name) for v in e.values):
+        return {k.value: v.id for k, v in zip(e.keys, e.values)}
+    return None
+
+
 def _simple_arg(e):
     return isinstance(e, (ast.Name, ast.Constant)) or (
         isinstance(e, ast.Attribute) and _simple_arg(e.value)) or (
@@ -749,6 +803,21 @@ class _Inliner:
                 node.body = [n for n in node.body if keep(n)]
 
     def block(self, block):
+        tables = getattr(self, "_tables", None)
+        if tables is None:
+            tables = self._tables = self.dispatch_tables()
+        i, rewritten = 0, []
+        while i < len(block):
+            r = self.dispatch_call(block, i, tables)
+            if r is not None:
+                consumed, node = r
+                del rewritten[len(rewritten) - (consumed - 1):]
+                rewritten.append(node)
+                self.changed = True
+            else:
+                rewritten.append(block[i])
+            i += 1
+        block = rewritten
         out = []
         for st in block:
             for field in ("body", "orelse", "finalbody"):
@@ -874,6 +943,70 @@ class _Inliner:
             out.extend(pre)
             out.append(st)
         return out
+
+    def dispatch_tables(self):
+        """name -> {True: f, False: g} for module-level dicts of functions keyed by booleans"""
+        out = {}
+        for st in self.tree.body:
+            if isinstance(st, ast.Assign) and len(st.targets) == 1 \
+                    and isinstance(st.targets[0], ast.Name):
+                d = _bool_dispatch(st.value)
+                if d is not None:
+                    out[st.targets[0].id] = d
+        return out
+
+    def dispatch_call(self, block, i, tables):
+        """block[i] calls TABLE[c](...) as its whole value (possibly through a name bound by
+        the statement before): the two statements it stands for, under `if c`"""
+        st = block[i]
+        if not (isinstance(st, (ast.Assign, ast.Return, ast.Expr, ast.AugAssign))
+                and isinstance(st.value, ast.Call)):
+            return None
+        f = st.value.func
+        consumed = 1
+        sel = None
+        if isinstance(f, ast.Subscript):
+            sel = f
+        elif isinstance(f, ast.Name) and i > 0:
+            prev = block[i - 1]
+            if isinstance(prev, ast.Assign) and len(prev.targets) == 1 \
+                    and isinstance(prev.targets[0], ast.Name) and prev.targets[0].id == f.id \
+                    and isinstance(prev.value, ast.Subscript):
+                uses = sum(isinstance(n, ast.Name) and n.id == f.id for b in block
+                           for n in ast.walk(b))
+                if uses == 2:
+                    sel, consumed = prev.value, 2
+        if sel is None:
+            return None
+        table = None
+        if isinstance(sel.value, ast.Name) and sel.value.id in tables:
+            table = tables[sel.value.id]
+        else:
+            table = _bool_dispatch(sel.value)
+        if table is None and isinstance(sel.value, ast.Name):
+            # a local dict bound by the statement just before
+            j = i - consumed
+            if j >= 0 and isinstance(block[j], ast.Assign) and len(block[j].targets) == 1 \
+                    and isinstance(block[j].targets[0], ast.Name) \
+                    and block[j].targets[0].id == sel.value.id:
+                table = _bool_dispatch(block[j].value)
+                uses = sum(isinstance(n, ast.Name) and n.id == sel.value.id for b in block
+                           for n in ast.walk(b))
+                if table is not None and uses == 2:
+                    consumed += 1
+                else:
+                    table = None
+        if table is None:
+            return None
+
+        def branch(fname):
+            new = copy.deepcopy(st)
+            new.value.func = ast.Name(id=fname, ctx=ast.Load())
+            return new
+        node = ast.If(test=sel.slice, body=[branch(table[True])], orelse=[branch(table[False])])
+        ast.copy_location(node, st)
+        ast.fix_missing_locations(node)
+        return consumed, node
 
     def comprehension_to_loop(self, st):
         if not isinstance(st, (ast.Assign, ast.Return)) or not isinstance(
@@ -1252,6 +1385,82 @@ def _stored_names(st):
     return out
 
 
+def _simple_table_elt(e):
+    if isinstance(e, (ast.Constant, ast.Name)):
+        return True
+    return isinstance(e, (ast.Tuple, ast.List)) and all(_simple_table_elt(x) for x in e.elts)
+
+
+def _unrollable(st):
+    """a loop over a display of 2..16 rows of constants / names, whose variables are not rebound
+    in the body, and whose body either has no break / continue or is one `if c: ...; break`"""
+    it = st.iter
+    if not getattr(st, "_unroll_ok", False):
+        return False
+    if not isinstance(it, (ast.Tuple, ast.List)) or not 2 <= len(it.elts) <= 16:
+        return False
+    if not all(_simple_table_elt(e) for e in it.elts):
+        return False
+    tnames = [n.id for n in ast.walk(st.target) if isinstance(n, ast.Name)]
+    if not all(isinstance(n, (ast.Name, ast.Tuple, ast.List)) for n in ast.walk(st.target)
+               if not isinstance(n, ast.expr_context)):
+        return False
+    if isinstance(st.target, (ast.Tuple, ast.List)):
+        if not all(isinstance(e, (ast.Tuple, ast.List)) and len(e.elts) == len(st.target.elts)
+                   for e in it.elts):
+            return False
+        if not all(isinstance(t, ast.Name) for t in st.target.elts):
+            return False
+    stored = set()
+    for b in st.body:
+        stored |= _stored_names(b)
+    if stored & set(tnames):
+        return False
+    # the loop variables must not be used after the loop (they are substituted away)
+    if not _jumps_out(st.body):
+        return True
+    if len(st.body) == 1 and isinstance(st.body[0], ast.If) and not st.body[0].orelse \
+            and isinstance(st.body[0].body[-1], ast.Break) \
+            and not _jumps_out(st.body[0].body[:-1]):
+        return True
+    return False
+
+
+def _mark_unrollable(tree):
+    """loops whose variables are not read outside the loop (they are substituted away)"""
+    for fn in [n for n in ast.walk(tree) if isinstance(n, ast.FunctionDef)]:
+        loads = {}
+        for n in ast.walk(fn):
+            if isinstance(n, ast.Name) and isinstance(n.ctx, ast.Load):
+                loads[n.id] = loads.get(n.id, 0) + 1
+        for lp in [n for n in ast.walk(fn) if isinstance(n, ast.For)]:
+            tn = {n.id for n in ast.walk(lp.target) if isinstance(n, ast.Name)}
+            inside = {}
+            for n in ast.walk(lp):
+                if isinstance(n, ast.Name) and isinstance(n.ctx, ast.Load) and n.id in tn:
+                    inside[n.id] = inside.get(n.id, 0) + 1
+            lp._unroll_ok = all(inside.get(t, 0) == loads.get(t, 0) for t in tn)
+
+
+def _unroll(st):
+    rows = []
+    for e in st.iter.elts:
+        if isinstance(st.target, ast.Name):
+            mapping = {st.target.id: e}
+        else:
+            mapping = {t.id: v for t, v in zip(st.target.elts, e.elts)}
+        rows.append([_Subst(mapping).visit(copy.deepcopy(b)) for b in st.body])
+    if not _jumps_out(st.body):
+        return [b for r in rows for b in r]
+    chain = None
+    for r in reversed(rows):
+        node = r[0]
+        node.body = node.body[:-1] or [ast.copy_location(ast.Pass(), node)]
+        node.orelse = [chain] if chain is not None else []
+        chain = node
+    return [chain]
+
+
 def simplify_block(block, facts=None):
     facts = dict(facts or {})
     out = []
@@ -1287,6 +1496,12 @@ def simplify_block(block, facts=None):
                 st.body = [ast.copy_location(ast.Pass(), st)]
             elif not st.body:
                 st.test, st.body, st.orelse = negate(st.test), st.orelse, []
+        elif isinstance(st, ast.For) and not st.orelse and _unrollable(st):
+            new = simplify_block(_unroll(st), facts)
+            out.extend(new)
+            for c in new:
+                facts = {k: v for k, v in facts.items() if v[1] not in _stored_names(c)}
+            continue
         elif isinstance(st, ast.For) and not st.orelse and isinstance(st.iter, (ast.List,
                                                                                ast.Tuple)) \
                 and len(st.iter.elts) == 1 and not isinstance(st.iter.elts[0], ast.Starred) \
@@ -1319,6 +1534,126 @@ def simplify_block(block, facts=None):
         if stored:
             facts = {k: v for k, v in facts.items() if v[1] not in stored}
     return out
+
+
+# ---------------------------------------------------------------------------------------------
+# B: constants and plain aliases are propagated forward inside each block (the definitions
+# stay, so nothing depends on liveness); values merge after branches when they agree
+# ---------------------------------------------------------------------------------------------
+def _prop_value(e):
+    if isinstance(e, ast.Constant) and (e.value is None or isinstance(
+            e.value, (str, int, float, bool))) and not isinstance(e.value, bytes):
+        return True
+    return isinstance(e, ast.Name)
+
+
+class _EnvSubst(ast.NodeTransformer):
+    def __init__(self, env):
+        self.env = env
+        self.shadow = []
+
+    def visit_Name(self, n):
+        if isinstance(n.ctx, ast.Load) and n.id in self.env \
+                and not any(n.id in s_ for s_ in self.shadow):
+            return ast.copy_location(copy.deepcopy(self.env[n.id]), n)
+        return n
+
+    def visit_Lambda(self, n):
+        return n
+
+    def _comp(self, n):
+        names = {x.id for g in n.generators for x in ast.walk(g.target)
+                 if isinstance(x, ast.Name)}
+        # the first iterable is evaluated outside the comprehension's scope
+        n.generators[0].iter = self.visit(n.generators[0].iter)
+        self.shadow.append(names)
+        for i, g in enumerate(n.generators):
+            if i:
+                g.iter = self.visit(g.iter)
+            g.ifs = [self.visit(c) for c in g.ifs]
+        if isinstance(n, ast.DictComp):
+            n.key, n.value = self.visit(n.key), self.visit(n.value)
+        else:
+            n.elt = self.visit(n.elt)
+        self.shadow.pop()
+        return n
+    visit_ListComp = visit_SetComp = visit_GeneratorExp = visit_DictComp = _comp
+
+    def visit_FormattedValue(self, n):
+        return self.generic_visit(n)
+
+
+def _subst_own(st, env):
+    """substitute in the expressions of the statement itself (not in its nested blocks)"""
+    if not env:
+        return
+    sub = _EnvSubst(env)
+    for field, old in ast.iter_fields(st):
+        if field in ("body", "orelse", "finalbody", "handlers", "cases"):
+            continue
+        if isinstance(old, list):
+            old[:] = [sub.visit(v) if isinstance(v, ast.AST) else v for v in old]
+        elif isinstance(old, ast.AST):
+            setattr(st, field, sub.visit(old))
+
+
+def _kill(env, names):
+    if not names:
+        return env
+    return {k: v for k, v in env.items()
+            if k not in names and not (isinstance(v, ast.Name) and v.id in names)}
+
+
+def _same_value(a, b):
+    return ast.dump(a) == ast.dump(b)
+
+
+def block_propagate(block, env=None):
+    """returns the environment after the block, or None when every path leaves it by a jump"""
+    env = dict(env or {})
+    for st in block:
+        if isinstance(st, (ast.FunctionDef, ast.AsyncFunctionDef, ast.ClassDef)):
+            block_propagate(st.body, {})
+            env = _kill(env, _stored_names(st))
+            continue
+        if isinstance(st, ast.If):
+            _subst_own(st, env)
+            e1 = block_propagate(st.body, env)
+            e2 = block_propagate(st.orelse, env)
+            if e1 is None and e2 is None:
+                return None
+            if e1 is None:
+                env = e2
+            elif e2 is None:
+                env = e1
+            else:
+                env = {k: v for k, v in e1.items() if k in e2 and _same_value(v, e2[k])}
+            continue
+        if isinstance(st, (ast.For, ast.While, ast.Try, ast.With, ast.AsyncFor, ast.AsyncWith,
+                           ast.Match)):
+            env = _kill(env, _stored_names(st))
+            _subst_own(st, env)
+            for field in ("body", "orelse", "finalbody"):
+                b = getattr(st, field, None)
+                if isinstance(b, list) and b and isinstance(b[0], ast.stmt):
+                    block_propagate(b, env)
+            for h in getattr(st, "handlers", []) or []:
+                block_propagate(h.body, env)
+            for c in getattr(st, "cases", []) or []:
+                block_propagate(c.body, _kill(env, _stored_names(c)))
+            continue
+        _subst_own(st, env)
+        if isinstance(st, (ast.Return, ast.Raise, ast.Continue, ast.Break)):
+            return None
+        stored = _stored_names(st)
+        env = _kill(env, stored)
+        if isinstance(st, ast.Assign) and len(st.targets) == 1 \
+                and isinstance(st.targets[0], ast.Name) and _prop_value(st.value) \
+                and not (isinstance(st.value, ast.Name) and st.value.id == st.targets[0].id):
+            env[st.targets[0].id] = st.value
+        if isinstance(st, (ast.Global, ast.Nonlocal)):
+            env = _kill(env, set(st.names))
+    return env
 
 
 def renumber(tree):
@@ -1413,7 +1748,29 @@ def module_constants(tree):
             v = _const_fold(st.value, env)
             if isinstance(v, str):
                 env[nm] = v
-    if not env:
+    # tables: a tuple / list display of constants, names of module-level functions and nested
+    # such displays -- written out where a loop runs over them
+    funcs = {n.name for n in tree.body if isinstance(n, ast.FunctionDef)}
+
+    def table_ok(e, depth=0):
+        if isinstance(e, (ast.Tuple, ast.List)):
+            return depth < 3 and len(e.elts) <= 16 and all(table_ok(x, depth + 1)
+                                                           for x in e.elts)
+        if isinstance(e, ast.Constant):
+            return True
+        if isinstance(e, ast.Name):
+            return e.id in funcs or e.id in env
+        return False
+    tables = {}
+    for st in tree.body:
+        if isinstance(st, ast.Assign) and len(st.targets) == 1 \
+                and isinstance(st.targets[0], ast.Name) and stores.get(st.targets[0].id) == 1 \
+                and isinstance(st.value, (ast.Tuple, ast.List)) and st.value.elts \
+                and table_ok(st.value):
+            nm = st.targets[0].id
+            if nm.startswith("_") or nm.isupper():
+                tables[nm] = st.value
+    if not env and not tables:
         return tree
 
     class R(ast.NodeTransformer):
@@ -1421,6 +1778,11 @@ def module_constants(tree):
             if isinstance(n.ctx, ast.Load) and n.id in env:
                 return ast.copy_location(ast.Constant(value=env[n.id]), n)
             return n
+
+        def visit_For(self, n):
+            if isinstance(n.iter, ast.Name) and n.iter.id in tables:
+                n.iter = copy.deepcopy(tables[n.iter.id])
+            return self.generic_visit(n)
     return R().visit(tree)
 
 
@@ -1543,14 +1905,25 @@ def canonicalise(tree, sigs=None):
     tree = module_constants(tree)
     if sigs:
         tree = _KwToPos(sigs).visit(tree)
-    _Inliner(tree).run()
     classes = _namedtuple_classes(tree)
-    if classes:
-        for f in [n for n in ast.walk(tree) if isinstance(n, ast.FunctionDef)]:
-            split_records(f, classes)
-    tree.body = simplify_block(tree.body)
+    for _round in range(3):
+        before = ast.dump(tree) if _round else None
+        _Inliner(tree).run()
+        if classes:
+            for f in [n for n in ast.walk(tree) if isinstance(n, ast.FunctionDef)]:
+                split_records(f, classes)
+        _mark_unrollable(tree)
+        tree.body = simplify_block(tree.body)
+        if _round and ast.dump(tree) == before:
+            break
+        if not any(isinstance(n, ast.Call) and _Inliner._private(
+                _unparse(n.func).split(".")[-1]) for n in ast.walk(tree)):
+            break
     tree = _KeysNorm().visit(tree)
     tree.body = canon_block(tree.body)
+    for f in [n for n in ast.walk(tree) if isinstance(n, ast.FunctionDef)]:
+        if not any(isinstance(n, (ast.Global, ast.Nonlocal)) for n in ast.walk(f)):
+            block_propagate(f.body, {})
     ast.fix_missing_locations(tree)
     renumber(tree)
     propagate_all(tree)
@@ -1558,6 +1931,7 @@ def canonicalise(tree, sigs=None):
         x.__dict__.pop("_cparent", None)
     # propagation may have exposed further simplifications (aliases of tested names)
     before = ast.dump(tree)
+    _mark_unrollable(tree)
     tree.body = simplify_block(tree.body)
     if ast.dump(tree) != before:
         tree.body = canon_block(tree.body)
